@@ -37,6 +37,23 @@ type obs struct {
 	HasAny  []bool `json:"hasany"`
 }
 
+// multi-variable programs: V is the target variable, W the argument variable of AddSet/RemoveSet
+type mop struct {
+	Op   string `json:"op"`
+	V    int    `json:"v"`
+	W    int    `json:"w,omitempty"`
+	Args []int  `json:"args,omitempty"`
+}
+
+type mcase struct {
+	Kind string  `json:"kind"`
+	Elem string  `json:"elem"`
+	N    int     `json:"universe"`
+	K    int     `json:"vars"`
+	Ops  []mop   `json:"mops"`
+	Obs  [][]obs `json:"mobs"`
+}
+
 type jcase struct {
 	Kind string `json:"kind"`
 	Elem string `json:"elem"`
@@ -108,6 +125,152 @@ func runSeq[T comparable](univ []T, ops []op) []obs {
 		out = append(out, ob)
 	}
 	return out
+}
+
+func probe[T comparable](univ []T, index map[T]int, s set.Set[T], ret bool) obs {
+	sl := s.Slice()
+	ob := obs{Ret: ret, Nil: sl == nil, Members: make([]int, 0, len(sl))}
+	for _, v := range sl {
+		k, ok := index[v]
+		if !ok {
+			k = -1
+		}
+		ob.Members = append(ob.Members, k)
+	}
+	sort.Ints(ob.Members)
+	for _, u := range univ {
+		ob.Has = append(ob.Has, s.Has(u))
+		ob.HasAny = append(ob.HasAny, s.HasAny(u))
+	}
+	return ob
+}
+
+// runMulti executes a program over k set variables and probes all of them after every step.
+func runMulti[T comparable](univ []T, k int, ops []mop) [][]obs {
+	index := make(map[T]int, len(univ))
+	for i, u := range univ {
+		index[u] = i
+	}
+	vars := make([]set.Set[T], k)
+	out := make([][]obs, 0, len(ops))
+	for _, o := range ops {
+		ret := false
+		items := pick(univ, o.Args)
+		switch o.Op {
+		case "Nil":
+			vars[o.V] = nil
+		case "Make":
+			vars[o.V] = set.Make(items...)
+		case "Add":
+			ret = vars[o.V].Add(items...)
+		case "AddSet":
+			ret = vars[o.V].AddSet(vars[o.W])
+		case "Remove":
+			ret = vars[o.V].Remove(items...)
+		case "RemoveSet":
+			ret = vars[o.V].RemoveSet(vars[o.W])
+		case "Has":
+			ret = vars[o.V].Has(items...)
+		case "HasAny":
+			ret = vars[o.V].HasAny(items...)
+		default:
+			panic("unknown op " + o.Op)
+		}
+		row := make([]obs, k)
+		for i := range vars {
+			row[i] = probe(univ, index, vars[i], ret)
+		}
+		out = append(out, row)
+	}
+	return out
+}
+
+func universeOf(elem string, n int) any {
+	switch elem {
+	case "int":
+		u := make([]int, n)
+		for i := range u {
+			u[i] = i*7 - 3
+		}
+		return u
+	case "string":
+		return []string{"", "a", "A", "ab", "é", "a b", "true", "null"}[:n]
+	default:
+		u := make([]pt, n)
+		for i := range u {
+			u[i] = pt{A: i / 2, B: []string{"x", "y"}[i%2]}
+		}
+		return u
+	}
+}
+
+func runM(elem string, n, k int, ops []mop) [][]obs {
+	switch u := universeOf(elem, n).(type) {
+	case []int:
+		return runMulti(u, k, ops)
+	case []string:
+		return runMulti(u, k, ops)
+	default:
+		return runMulti(u.([]pt), k, ops)
+	}
+}
+
+func galMop(o mop) string {
+	v, w := gal.Nat(o.V), gal.Nat(o.W)
+	switch o.Op {
+	case "Nil":
+		return "MNil " + v
+	case "Make":
+		return "MMake " + v + " " + galArgs(o.Args)
+	case "Add":
+		return "MAdd " + v + " " + galArgs(o.Args)
+	case "AddSet":
+		return "MAddSet " + v + " " + w
+	case "Remove":
+		return "MRemove " + v + " " + galArgs(o.Args)
+	case "RemoveSet":
+		return "MRemoveSet " + v + " " + w
+	case "Has":
+		return "MHas " + v + " " + galArgs(o.Args)
+	default:
+		return "MHasAny " + v + " " + galArgs(o.Args)
+	}
+}
+
+func emitMulti(out *gal.Out, kind, elem string, n, k int, ops []mop) {
+	ob := runM(elem, n, k, ops)
+	univ := make([]int, n)
+	for i := range univ {
+		univ[i] = i
+	}
+	g := "{| mc_univ := " + galArgs(univ) + "; mc_vars := " + gal.Nat(k) + "; mc_ops := " + gal.ListOf(ops, galMop) +
+		"; mc_obs := " + gal.ListOf(ob, func(row []obs) string { return gal.ListOf(row, galObs) }) + " |}"
+	out.Case(g, mcase{kind, elem, n, k, ops, ob})
+}
+
+func randomMulti(r *rand.Rand, out *gal.Out) {
+	// (nat numerals are printed in nat scope by gal.Nat)
+	elem := []string{"int", "string", "struct"}[r.IntN(3)]
+	n := 3 + r.IntN(6)
+	k := 2 + r.IntN(2)
+	cnt := 2 + r.IntN(39)
+	ops := make([]mop, 0, cnt)
+	names := []string{"Add", "Add", "Add", "AddSet", "AddSet", "AddSet", "Remove", "Remove", "RemoveSet", "RemoveSet",
+		"Has", "HasAny", "Nil", "Make", "Make"}
+	for len(ops) < cnt {
+		name := names[r.IntN(len(names))]
+		o := mop{Op: name, V: r.IntN(k)}
+		switch name {
+		case "Has", "HasAny":
+			o.Args = args(r, n, 1)
+		case "Add", "Remove", "Make":
+			o.Args = args(r, n, 0)
+		case "AddSet", "RemoveSet":
+			o.W = r.IntN(k)
+		}
+		ops = append(ops, o)
+	}
+	emitMulti(out, "multi", elem, n, k, ops)
 }
 
 func run(elem string, n int, ops []op) []obs {
@@ -236,6 +399,36 @@ func main() {
 	r := gal.NewRand(*seed)
 	out := gal.NewOut(*prefix)
 	defer out.Close()
+	if *mode == "multifile" {
+		f, err := os.Open(*in)
+		if err != nil {
+			panic(err)
+		}
+		sc := bufio.NewScanner(f)
+		sc.Buffer(make([]byte, 1<<20), 1<<26)
+		for sc.Scan() {
+			var c mcase
+			if err := json.Unmarshal(sc.Bytes(), &c); err != nil {
+				panic(err)
+			}
+			emitMulti(out, c.Kind, c.Elem, c.N, c.K, c.Ops)
+		}
+		return
+	}
+	if *mode == "multi" {
+		// storage must never be shared between two variables: AddSet into a nil / an empty
+		// receiver, then mutate one side and look at the other
+		for _, e := range []string{"int", "string", "struct"} {
+			emitMulti(out, "multi-corpus", e, 4, 2, []mop{{Op: "Make", V: 1, Args: []int{0, 1}}, {Op: "AddSet", V: 0, W: 1},
+				{Op: "Add", V: 0, Args: []int{2}}, {Op: "Remove", V: 1, Args: []int{0}}, {Op: "Has", V: 0, Args: []int{0, 2}}})
+			emitMulti(out, "multi-corpus", e, 4, 3, []mop{{Op: "Make", V: 0}, {Op: "Make", V: 2, Args: []int{3, 3, 1}}, {Op: "AddSet", V: 0, W: 2},
+				{Op: "RemoveSet", V: 2, W: 0}, {Op: "AddSet", V: 1, W: 0}, {Op: "RemoveSet", V: 0, W: 0}, {Op: "HasAny", V: 1, Args: []int{1, 2}}})
+		}
+		for i := 0; i < *n; i++ {
+			randomMulti(r, out)
+		}
+		return
+	}
 	if *mode == "file" {
 		f, err := os.Open(*in)
 		if err != nil {
